@@ -449,4 +449,5 @@ var docProbes = [][2]string{
 	{"F09-null-label-with-name", `{"steps":[{"command":"c","label":null,"name":"n"}]}`},
 	{"F09-empty-key-with-id", `{"steps":[{"command":"c","key":"","id":"i"}]}`},
 	{"F09-empty-id-with-identifier", `{"steps":[{"command":"c","id":"","identifier":"x"}]}`},
+	{"F16-null-matrix-dimension", `{"steps":[{"command":"c","matrix":{"setup":{"os":null,"arch":["a"]}}}]}`},
 }
